@@ -46,6 +46,22 @@ fn ok_or(ctx: &mut Ctx, entry: &str, text: &[u8], r: Result<Result<(), String>, 
     }
 }
 
+/// parse from a heap copy of the text, then overwrite and free that copy before the result is
+/// looked at: what was produced must not depend on the caller's buffer any more
+fn scribbled<T: 'static>(text: &[u8], parse: impl FnOnce(&[u8]) -> Result<T, String>) -> Result<T, String> {
+    let mut buf = text.to_vec();
+    let r = parse(&buf);
+    buf.iter_mut().for_each(|b| *b = b'#');
+    // the overwritten buffer stays allocated until the end of the case, so that a value still
+    // pointing into it reads '#' every time instead of whatever reuses the memory
+    GRAVE.with(|g| g.borrow_mut().push(buf));
+    r
+}
+
+thread_local! {
+    static GRAVE: std::cell::RefCell<Vec<Vec<u8>>> = const { std::cell::RefCell::new(Vec::new()) };
+}
+
 fn rawnum_default() -> bool {
     cfg!(feature = "arbitrary_precision")
 }
@@ -57,6 +73,7 @@ pub fn check_tree(ctx: &mut Ctx, doc: &[u8], framings: &[Framing]) {
         return;
     }
     ctx.nontrivial();
+    GRAVE.with(|g| g.borrow_mut().clear());
     let rn = rawnum_default();
     let mut text = vec![];
     for f in framings {
@@ -68,7 +85,7 @@ pub fn check_tree(ctx: &mut Ctx, doc: &[u8], framings: &[Framing]) {
             "from_slice<Value>",
             &text,
             guard(|| {
-                let v: Value = sonic_rs::from_slice(&text).map_err(|e| format!("rejected: {e}"))?;
+                let v: Value = scribbled(&text, |b| sonic_rs::from_slice(b).map_err(|e| format!("rejected: {e}")))?;
                 walk::cmp_value(&v, &root, &text, rn)
             }),
         );
@@ -88,8 +105,10 @@ pub fn check_tree(ctx: &mut Ctx, doc: &[u8], framings: &[Framing]) {
             "use_rawnumber<Value>",
             &text,
             guard(|| {
-                let mut de = Deserializer::from_slice(&text).use_rawnumber();
-                let v: Value = de.deserialize().map_err(|e| format!("rejected: {e}"))?;
+                let v: Value = scribbled(&text, |b| {
+                    let mut de = Deserializer::from_slice(b).use_rawnumber();
+                    de.deserialize().map_err(|e| format!("rejected: {e}"))
+                })?;
                 walk::cmp_value(&v, &root, &text, true)
             }),
         );
@@ -98,8 +117,10 @@ pub fn check_tree(ctx: &mut Ctx, doc: &[u8], framings: &[Framing]) {
             "utf8_lossy<Value>",
             &text,
             guard(|| {
-                let mut de = Deserializer::from_slice(&text).utf8_lossy();
-                let v: Value = de.deserialize().map_err(|e| format!("rejected: {e}"))?;
+                let v: Value = scribbled(&text, |b| {
+                    let mut de = Deserializer::from_slice(b).utf8_lossy();
+                    de.deserialize().map_err(|e| format!("rejected: {e}"))
+                })?;
                 walk::cmp_value(&v, &root, &text, rn)
             }),
         );
@@ -110,7 +131,7 @@ pub fn check_tree(ctx: &mut Ctx, doc: &[u8], framings: &[Framing]) {
                 "from_slice<Object>",
                 &text,
                 guard(|| {
-                    let o: Object = sonic_rs::from_slice(&text).map_err(|e| format!("rejected: {e}"))?;
+                    let o: Object = scribbled(&text, |b| sonic_rs::from_slice(b).map_err(|e| format!("rejected: {e}")))?;
                     walk::cmp_value(&o.into_value(), &root, &text, rn)
                 }),
             ),
@@ -119,7 +140,7 @@ pub fn check_tree(ctx: &mut Ctx, doc: &[u8], framings: &[Framing]) {
                 "from_slice<Array>",
                 &text,
                 guard(|| {
-                    let o: Array = sonic_rs::from_slice(&text).map_err(|e| format!("rejected: {e}"))?;
+                    let o: Array = scribbled(&text, |b| sonic_rs::from_slice(b).map_err(|e| format!("rejected: {e}")))?;
                     walk::cmp_value(&o.into_value(), &root, &text, rn)
                 }),
             ),
@@ -143,8 +164,20 @@ pub fn check_tree(ctx: &mut Ctx, doc: &[u8], framings: &[Framing]) {
             "struct{v:Value}",
             &text,
             guard(|| {
-                let x: WrapV = sonic_rs::from_slice(&text).map_err(|e| format!("rejected: {e}"))?;
+                let x: WrapV = scribbled(&text, |b| sonic_rs::from_slice(b).map_err(|e| format!("rejected: {e}")))?;
                 walk::cmp_value(&x.v, vn, &text, rn)
+            }),
+        );
+        ok_or(
+            ctx,
+            "struct{v:Value} use_rawnumber",
+            &text,
+            guard(|| {
+                let x: WrapV = scribbled(&text, |b| {
+                    let mut de = Deserializer::from_slice(b).use_rawnumber();
+                    de.deserialize().map_err(|e| format!("rejected: {e}"))
+                })?;
+                walk::cmp_value(&x.v, vn, &text, true)
             }),
         );
         // two fields after a scalar field
@@ -162,7 +195,7 @@ pub fn check_tree(ctx: &mut Ctx, doc: &[u8], framings: &[Framing]) {
             "struct{a,v:Value,w:Value}",
             &text,
             guard(|| {
-                let x: WrapV2 = sonic_rs::from_slice(&text).map_err(|e| format!("rejected: {e}"))?;
+                let x: WrapV2 = scribbled(&text, |b| sonic_rs::from_slice(b).map_err(|e| format!("rejected: {e}")))?;
                 walk::cmp_value(&x.v, &m[1].1, &text, rn)?;
                 walk::cmp_value(&x.w, &m[2].1, &text, rn)
             }),
@@ -182,12 +215,28 @@ pub fn check_tree(ctx: &mut Ctx, doc: &[u8], framings: &[Framing]) {
             "Vec<Value>",
             &text,
             guard(|| {
-                let x: Vec<Value> = sonic_rs::from_slice(&text).map_err(|e| format!("rejected: {e}"))?;
+                let x: Vec<Value> = scribbled(&text, |b| sonic_rs::from_slice(b).map_err(|e| format!("rejected: {e}")))?;
                 if x.len() != 2 {
                     return Err(format!("{} elements", x.len()));
                 }
                 walk::cmp_value(&x[0], &items[0], &text, rn)?;
                 walk::cmp_value(&x[1], &items[1], &text, rn)
+            }),
+        );
+        ok_or(
+            ctx,
+            "Vec<Value> use_rawnumber",
+            &text,
+            guard(|| {
+                let x: Vec<Value> = scribbled(&text, |b| {
+                    let mut de = Deserializer::from_slice(b).use_rawnumber();
+                    de.deserialize().map_err(|e| format!("rejected: {e}"))
+                })?;
+                if x.len() != 2 {
+                    return Err(format!("{} elements", x.len()));
+                }
+                walk::cmp_value(&x[0], &items[0], &text, true)?;
+                walk::cmp_value(&x[1], &items[1], &text, true)
             }),
         );
         // (e) second and third document of a stream (whitespace separated)
@@ -205,15 +254,16 @@ pub fn check_tree(ctx: &mut Ctx, doc: &[u8], framings: &[Framing]) {
             "stream<Value> 2nd+3rd",
             &text,
             guard(|| {
-                let mut st = Deserializer::from_slice(&text).into_stream::<Value>();
-                let _ = st.next();
-                let a = st.next().ok_or("stream ended early")?.map_err(|e| format!("2nd rejected: {e}"))?;
-                let b = st.next().ok_or("stream ended early")?.map_err(|e| format!("3rd rejected: {e}"))?;
+                let (a, b): (Value, Value) = scribbled(&text, |buf| {
+                    let mut st = Deserializer::from_slice(buf).into_stream::<Value>();
+                    let _ = st.next();
+                    let a = st.next().ok_or("stream ended early")?.map_err(|e| format!("2nd rejected: {e}"))?;
+                    let b = st.next().ok_or("stream ended early")?.map_err(|e| format!("3rd rejected: {e}"))?;
+                    Ok((a, b))
+                })?;
                 walk::cmp_value(&a, &n2, &text, rn)?;
                 walk::cmp_value(&b, &n3, &text, rn)?;
                 // values of one stream have independent lifetimes
-                drop(st);
-                walk::cmp_value(&b, &n3, &text, rn)?;
                 drop(a);
                 walk::cmp_value(&b, &n3, &text, rn)
             }),
@@ -224,10 +274,15 @@ pub fn check_tree(ctx: &mut Ctx, doc: &[u8], framings: &[Framing]) {
             "stream use_rawnumber 2nd",
             &text,
             guard(|| {
-                let mut st = Deserializer::from_slice(&text).use_rawnumber().into_stream::<Value>();
-                let _ = st.next();
-                let a = st.next().ok_or("stream ended early")?.map_err(|e| format!("2nd rejected: {e}"))?;
-                walk::cmp_value(&a, &n2, &text, true)
+                let (a, b): (Value, Value) = scribbled(&text, |buf| {
+                    let mut st = Deserializer::from_slice(buf).use_rawnumber().into_stream::<Value>();
+                    let _ = st.next();
+                    let a = st.next().ok_or("stream ended early")?.map_err(|e| format!("2nd rejected: {e}"))?;
+                    let b = st.next().ok_or("stream ended early")?.map_err(|e| format!("3rd rejected: {e}"))?;
+                    Ok((a, b))
+                })?;
+                walk::cmp_value(&a, &n2, &text, true)?;
+                walk::cmp_value(&b, &n3, &text, true)
             }),
         );
     }
